@@ -17,6 +17,11 @@ IsEvent(name) == l <= Len(Tr) /\ Ev.op = name /\ l' = l + 1 /\ tid' = tid
 
 TrReqMk   == IsEvent("reqmk") /\ ReqMk(Ev.c)
 TrReqRd   == IsEvent("reqrd") /\ ReqRd(Ev.c)
+\* do_zip_post added a job on channel "post" without a job id
+TrReqPo   == IsEvent("reqpo") /\ ReqPo(Ev.c)
+\* the channels the real worker class serves (rpc_* methods of nslave.Commands) are the spec's Handled
+TrChannels == /\ IsEvent("channels") /\ UNCHANGED vars
+              /\ {Ev.served[i] : i \in 1..Len(Ev.served)} = {"makezip", "render"}
 \* a worker pulled job (c, k); for a render job the worker's first call must be the makezip re-add with wait
 TrPull    == IsEvent("pull") /\ Pull(Ev.w) /\ wk'[Ev.w].c = Ev.c
                              /\ wk'[Ev.w].pc = (IF Ev.k = "mk" THEN "mk" ELSE "rdwait")
@@ -35,6 +40,6 @@ TrReport  == /\ IsEvent("report") /\ UNCHANGED vars
 Consumed == l = Len(Tr) + 1
 Done == Consumed /\ UNCHANGED tvars
 TraceInit == tid \in 1..Len(Batch) /\ l = 1 /\ Init
-TraceNext == TrReqMk \/ TrReqRd \/ TrPull \/ TrMkDone \/ TrProceed \/ TrRdDone \/ TrExpire \/ TrKill \/ TrReport \/ Done
+TraceNext == TrReqMk \/ TrReqRd \/ TrReqPo \/ TrChannels \/ TrPull \/ TrMkDone \/ TrProceed \/ TrRdDone \/ TrExpire \/ TrKill \/ TrReport \/ Done
 TraceSpec == TraceInit /\ [][TraceNext]_tvars
 =============================================================================
